@@ -55,7 +55,8 @@ LineVerdict(e) ==
         f5 == IF Has(e, "same2") /\ ~e.same2 /\ ~MayVary(e.ast) THEN ";not-repeatable" ELSE ""
         f6 == IF Has(e, "mar") /\ e.mar # "ok" THEN ";not-json" ELSE ""
         f7 == IF Has(e, "eb") /\ e.eb \notin {"ok", "skip"} /\ ~(MayVary(e.ast) /\ e.eb \in {"different-value", "different-error"}) THEN ";evalbytes-differs" ELSE ""
-    IN  v \o f1 \o f2 \o f3 \o f4 \o f5 \o f6 \o f7
+        f8 == IF v = "no" /\ UndefDiffers(e.out, IF Has(e, "want_ast") THEN e.want_ast ELSE e.ast, e.inp, e.binds) THEN ";undefined-mismatch" ELSE ""
+    IN  v \o f1 \o f2 \o f3 \o f4 \o f5 \o f6 \o f7 \o f8
 
 Check == /\ verdict = "pending"
          /\ verdict' = LineVerdict(TraceLines[l])
